@@ -381,10 +381,7 @@ theorem refr_opCcs {s : St} (h : Refr s) (ver : Nat) : Refr (opCcs s ver).1 := b
   obtain ⟨s2, ev1⟩ := r2
   simp only at h2 ⊢
   split
-  · have h3 := refr_addSubConn h2
-    generalize addSubConn s2 = r3 at h3 ⊢
-    obtain ⟨s3, ok, ev2⟩ := r3
-    exact h3
+  · exact refr_enforce h2 _ _
   · exact h2
 
 theorem refr_getLeastBusy {s : St} (h : Refr s) (c : Cfg) (l : List Slot) : Refr (getLeastBusy s c l).1 := by
